@@ -102,10 +102,17 @@ func nontrivial(c caseT, e expect) bool {
 	return false
 }
 
+// inQuickA: the quick tier runs the whole product of policy sets in canonical spelling; the spelling
+// variants (explicit UNSET, selector:{}) are added for every case without a competing second policy
+// and for all two-entry port maps. Thorough adds them everywhere.
+func inQuickA(ci caseInfo) bool {
+	return ci.form == formCanonical || ci.block == 'B' || ci.second == 0
+}
+
 func TestC10a(t *testing.T) {
 	env := engine.GetEnv()
 	res := engine.NewResult("C10", "a-resolvers")
-	res.Rule = "case = set of PeerAuthentication policies: mesh{none,4 modes} x namespace{none,4 modes} x workload policy{none, non-matching, matching x 4 modes x portLevelMtls(none | 1 entry on HTTP/TCP/auto/non-service port x 4 modes | 2 entries)} x one more policy {none | mesh, namespace, workload, other-namespace, root-with-selector x 4 modes x older/tie(name before, after)/younger} x spelling {canonical, explicit UNSET, selector:{}}; every case runs the real PolicyApplier, mtls_checker (full and client-scoped view), BestEffortInferServiceMTLSMode and the ambient PolicyCollections/buildWorkloadPolicies for 6 workload ports; non-trivial = an applicable policy sets a mode or a port-level entry (the answer is not the bare default)"
+	res.Rule = "case = set of PeerAuthentication policies: mesh{none,4 modes} x namespace{none,4 modes} x workload policy{none, non-matching, matching x 4 modes x portLevelMtls(none | 1 entry on HTTP/TCP/auto/non-service port x 4 modes | 2 entries)} x one more policy {none | mesh, namespace, workload, other-namespace, root-with-selector x 4 modes x older/tie(name before, after)/younger} x spelling {canonical, explicit UNSET, selector:{}} (quick: spelling variants only without a second policy and for two-entry port maps); every case runs the real PolicyApplier, mtls_checker (full and client-scoped view), BestEffortInferServiceMTLSMode and the ambient PolicyCollections/buildWorkloadPolicies for 6 workload ports; non-trivial = an applicable policy sets a mode or a port-level entry (the answer is not the bare default)"
 	defer res.Write(t, env)
 
 	if env.Replay != "" {
@@ -126,13 +133,21 @@ func TestC10a(t *testing.T) {
 	res.Bounds["block_B_dims(mesh,ns,workload2ports,spelling)"] = sp.dimsB
 	res.Bounds["ordinals_total"] = sp.sizeA + sp.sizeB
 	res.Bounds["ports_evaluated"] = evalPorts
-	var skipped int64
+	var skipped, n int64
 	var last int64 = -1
-	sp.each(func(ord int64, ci caseInfo, c caseT) bool {
+	sp.each(func(ord int64, ci caseInfo) bool {
 		skipped += ord - last - 1 // ordinals whose spelling variant is a no-op
 		last = ord
+		if !env.Thorough() && !inQuickA(ci) {
+			return true
+		}
+		n++
 		if !env.Mine(ord) {
 			return true
+		}
+		c, ok := sp.build(ci)
+		if !ok {
+			panic("formApplies and applyForm disagree for " + c.String())
 		}
 		if res.Evaluations%256 == 0 && env.Expired() {
 			res.Cap(fmt.Sprintf("deadline at ordinal %d/%d", ord, sp.sizeA+sp.sizeB))
@@ -154,12 +169,12 @@ func TestC10a(t *testing.T) {
 		if nontrivial(c, e) {
 			res.NontrivialCase(fmt.Sprint(ord))
 		}
-		if ord%100003 == 0 {
+		if res.Evaluations%3001 == 1 {
 			res.Sample(map[string]any{"case": c.String(), "expected": expectString(e), "observed": o})
 		}
 		return true
 	})
-	res.Count("ordinals_skipped_noop_spelling", 0)
+	res.Bounds["cases_in_tier"] = n
 	if env.Shard == 0 {
 		res.Count("ordinals_skipped_noop_spelling", skipped)
 	}
